@@ -146,6 +146,7 @@ func runCase(cs Case27) Rec {
 }
 
 var serverScens = []string{"Trusted", "UntrustedRoot", "Expired", "NotYetValid", "WrongName", "WrongKey", "BadLeafSig",
+	"NameIP4Listed", "NameIP4Unlisted", "NameIP6BracketListed", "NameIP6BracketUnlisted", "NameIP6ZoneListed", "NameDNSTrailingDot",
 	"CorruptSKXSig", "CorruptSKXParams", "CorruptServerFinished", "CorruptClientFinished"}
 var clientScens = []string{"NoClientCert", "ClientTrusted", "ClientUntrusted", "ClientExpired", "ClientWrongKey", "ClientServerEKU", "CorruptClientCV"}
 
@@ -205,6 +206,30 @@ func main() {
 		}
 		w.Close()
 		obs.Stat("cases", len(cases))
+	case "runh":
+		var cases []CaseH
+		tlsh.ReadCases(os.Args[2], func(line []byte) error {
+			var c CaseH
+			if err := json.Unmarshal(line, &c); err != nil {
+				return err
+			}
+			cases = append(cases, c)
+			return nil
+		})
+		recs := make([]RecH, len(cases))
+		tlsh.Parallel(len(cases), func(i int) { recs[i] = runHist(cases[i]) })
+		w := obs.NewWriter(os.Args[3])
+		for _, r := range recs {
+			w.Write(r)
+		}
+		w.Close()
+		obs.Stat("cases", len(cases))
+	case "runh-one":
+		var c CaseH
+		obs.ReadReplay(os.Args[2], &c)
+		w := obs.NewWriter(os.Args[3])
+		w.Write(runHist(c))
+		w.Close()
 	case "run-one":
 		var c Case27
 		obs.ReadReplay(os.Args[2], &c)
